@@ -304,6 +304,20 @@ def _relation(lk, n, neg=False):
     return ("false" if neg else "true", lk.desc(n))
 
 
+def _facts_of(lk, cond, neg=False):
+    """relations that hold when `cond` is true (neg=False) / false (neg=True); disjunctions yield nothing"""
+    c = strip(cond)
+    if c is None:
+        return []
+    if c.get("k") == "UnaryOperator" and c.get("op") == "!":
+        return _facts_of(lk, kids(c)[0], not neg)
+    if c.get("k") == "BinaryOperator" and c.get("op") == "&&":
+        return [] if neg else _facts_of(lk, kids(c)[0]) + _facts_of(lk, kids(c)[1])
+    if c.get("k") == "BinaryOperator" and c.get("op") == "||":
+        return _facts_of(lk, kids(c)[0], True) + _facts_of(lk, kids(c)[1], True) if neg else []
+    return [_relation(lk, c, neg)]
+
+
 def _path_facts(lk, ret):
     """relations known to hold when `ret` executes: conditions of enclosing ifs (then side), negated conditions of
     enclosing ifs (else side) and of earlier `if(c) return ...;` guards in the enclosing blocks"""
@@ -312,14 +326,11 @@ def _path_facts(lk, ret):
     p = cur.get("_p")
     while p is not None:
         if p.get("k") == "IfStmt":
-            c = kids(p)
             cond = p["c"][0]
-            if len(p["c"]) > 1 and (p["c"][1] is cur or any(y is cur for y in walk(p["c"][1]))):
-                out += [_relation(lk, x) for x in _conjuncts(cond)]
+            if len(p["c"]) > 1 and p["c"][1] is not None and (p["c"][1] is cur or any(y is cur for y in walk(p["c"][1]))):
+                out += _facts_of(lk, cond)
             elif len(p["c"]) > 2 and p["c"][2] is not None:
-                cj = _conjuncts(cond)
-                if len(cj) == 1:
-                    out.append(_relation(lk, cj[0], True))
+                out += _facts_of(lk, cond, True)
         if p.get("k") == "CompoundStmt":
             for st in kids(p):
                 if st is cur:
@@ -330,9 +341,7 @@ def _path_facts(lk, ret):
                     while last is not None and last.get("k") == "CompoundStmt" and kids(last):
                         last = kids(last)[-1]
                     if last is not None and last.get("k") == "ReturnStmt":
-                        cj = _conjuncts(st["c"][0])
-                        if len(cj) == 1:
-                            out.append(_relation(lk, cj[0], True))
+                        out += _facts_of(lk, st["c"][0], True)
         cur = p
         p = p.get("_p")
     return out
@@ -439,8 +448,8 @@ def treelevel(facts, name, container_field, res):
     if not succ or not empty:
         raise AnalysisBroken("TbfTree::%s: %d pair-returning / %d empty returns" % (name, len(succ), len(empty)))
     last = kids(fm.body)[-1] if kids(fm.body) else None
-    if last is None or last.get("k") != "ReturnStmt" or not is_empty_return(facts, last):
-        res.violation(R, f, fn["qname"], "fall-through", fn["l"][1], "the fall-through exit of the lookup is not an empty optional")
+    if last is None or last.get("k") != "ReturnStmt":
+        res.violation(R, f, fn["qname"], "fall-through", fn["l"][1], "the lookup can run off its end without returning the empty optional")
     nsearch = 0
     for s in succ:
         facts_on_path = _path_facts(lk, s)
